@@ -373,12 +373,17 @@ impl<'a> Run<'a> {
             Ok(response) => response,
             Err(_) => return None,
         };
-        if response.content_length() > self.collector.config().max_object_size {
-            warn!(
-                "Trust anchor certificate {uri} exceeds size limit. \
-                 Ignoring."
-            );
-            return None
+        if let (Some(len), Some(max)) = (
+            response.content_length(),
+            self.collector.config().max_object_size
+        ) {
+            if len > max {
+                warn!(
+                    "Trust anchor certificate {uri} exceeds size limit. \
+                     Ignoring."
+                );
+                return None
+            }
         }
 
         let mut reader = LimitedDataRead::new(
